@@ -39,6 +39,9 @@ Within(x, lo, hi) == FLe(lo, x) /\ FLe(x, hi)
 
 Has(r, k) == k \in DOMAIN r
 
+ShownDims(d) == IF Len(d) <= 5 THEN [list |-> d, ellipsis |-> FALSE]
+                ELSE [list |-> SubSeq(d, 1, 4) \o <<d[Len(d)]>>, ellipsis |-> TRUE]
+
 ConfigOK(e) ==
   LET c == e.config i == e.internal IN
   /\ c.n = i.n /\ c.m = i.m /\ c.nnzP = i.nnzP /\ c.nnzA = i.nnzA /\ c.ncones = i.ncones
@@ -50,6 +53,8 @@ ConfigOK(e) ==
   /\ \A name \in DOMAIN i.cones : Has(c, "cone_" \o name) /\ c["cone_" \o name] = i.cones[name]
   /\ \A name \in {"Zero", "Nonnegative", "SecondOrder", "Exponential", "Power", "GenPower", "PSDTriangle"} :
         Has(c, "cone_" \o name) => name \in DOMAIN i.cones
+  \* cone dimensions by type: all of them up to five, otherwise the first four, an ellipsis and the last one
+  /\ \A name \in DOMAIN i.dims : Has(c, "dims_" \o name) /\ c["dims_" \o name] = ShownDims(i.dims[name])
 
 RowsOK(e) ==
   LET r == e.parsed.rows IN
@@ -68,6 +73,7 @@ LastRowOK(e) ==
 
 CaseOK(e) ==
   /\ e.same_stream /\ e.same_file /\ e.len_buffer > 0
+  /\ e.same_short_stream                                   \* a stream accepting a few bytes per call gets every byte
   /\ e.len_quiet_buffer = 0 /\ e.len_quiet_stream = 0 /\ e.len_after_sink = 0
   /\ e.getbuf_err = <<TRUE, TRUE, TRUE>>
   /\ ConfigOK(e) /\ RowsOK(e)
